@@ -1,4 +1,587 @@
-//! Concurrent scenarios (C01, C02, C03, C10, C11): `C ...`.
+//! Concurrent scenarios (C01, C02, C03, C10, C11): the real library is run by real OS threads,
+//! one atomic operation (or lock attempt / release, or call / return marker) at a time, in the
+//! order dictated by a schedule.  Needs `--cfg prometheus_verif` (the sync shim in /repo).
+//!
+//! Line:  `C <object> | <ops of thread 0> | <ops of thread 1> | ... | S <schedule>`
+//!   object  ::= ctr NF|NU | gauge NF|NI | hist <n> <f64 bits>* | vec <nlabels>
+//!   ops     ::= op (, op)*        (see `parse_op`)
+//!   schedule::= (<tid>[s])*       `s` = make the step fail spuriously if it is a weak compare-exchange
+//! Output: one line, a Gallina `list event` (coq/Model/Conc.v).
+#[cfg(not(prometheus_verif))]
 pub fn run_line(_line: &str) -> String {
-    "CUnimplemented".to_string()
+    "[ENoHooks]".to_string()
+}
+
+#[cfg(prometheus_verif)]
+pub use imp::run_line;
+
+#[cfg(prometheus_verif)]
+mod imp {
+    use crate::tok::Tok;
+    use prometheus::core::{Collector, Metric};
+    use prometheus::verif_sync::{self, Hook, Outcome, Point};
+    use prometheus::*;
+    use std::panic::{catch_unwind, AssertUnwindSafe};
+    use std::sync::atomic::Ordering;
+    use std::sync::{Arc, Condvar, Mutex};
+    use std::time::{Duration, Instant};
+
+    struct Sched {
+        st: Mutex<State>,
+        cv: Condvar,
+    }
+    struct State {
+        turn: Option<(usize, bool)>, // (thread, force spurious failure)
+        waiting: Vec<bool>,
+        done: Vec<bool>,
+        blocked_on: Vec<Option<u64>>,
+        log: Vec<String>,
+        abort: bool,
+    }
+    struct WorkerHook {
+        s: Arc<Sched>,
+        me: usize,
+    }
+    struct Aborted;
+
+    impl WorkerHook {
+        /// parks until granted; returns the spurious flag
+        fn park(&self) -> bool {
+            let mut g = self.s.st.lock().unwrap();
+            g.waiting[self.me] = true;
+            self.s.cv.notify_all();
+            loop {
+                if g.abort {
+                    drop(g);
+                    std::panic::resume_unwind(Box::new(Aborted));
+                }
+                if let Some((t, sp)) = g.turn {
+                    if t == self.me {
+                        g.waiting[self.me] = false;
+                        return sp;
+                    }
+                }
+                g = self.s.cv.wait(g).unwrap();
+            }
+        }
+        fn emit(&self, line: String, blocked: Option<Option<u64>>) {
+            let mut g = self.s.st.lock().unwrap();
+            g.log.push(line);
+            if let Some(b) = blocked {
+                g.blocked_on[self.me] = b;
+            }
+            g.turn = None;
+            self.s.cv.notify_all();
+        }
+        fn marker(&self, line: String) {
+            self.park();
+            self.emit(line, None);
+        }
+    }
+    fn cord(o: Ordering) -> &'static str {
+        match o {
+            Ordering::Relaxed => "Relaxed",
+            Ordering::Acquire => "Acquire",
+            Ordering::Release => "Release",
+            Ordering::AcqRel => "AcqRel",
+            _ => "SeqCst",
+        }
+    }
+    fn ckind(k: &str) -> &'static str {
+        match k {
+            "load" => "KLoad",
+            "store" => "KStore",
+            "fetch_add" => "KFetchAdd",
+            "fetch_sub" => "KFetchSub",
+            "swap" => "KSwap",
+            "cas_weak" => "KCasWeak",
+            _ => "KOther",
+        }
+    }
+    fn clk(k: &str) -> &'static str {
+        match k {
+            "mutex" => "LMutex",
+            "read" => "LRead",
+            _ => "LWrite",
+        }
+    }
+    impl Hook for WorkerHook {
+        fn before(&self, _p: &Point) -> bool {
+            self.park()
+        }
+        fn after(&self, p: &Point, o: Outcome) {
+            let me = self.me;
+            let (line, b) = match (p, &o) {
+                (Point::Atomic { cell, kind, ord, ord2, .. }, Outcome::Atomic { before, after, ok }) => (
+                    format!(
+                        "EAt {} {} {} {} {} {} {} {}",
+                        me,
+                        cell,
+                        ckind(kind),
+                        cord(*ord),
+                        match ord2 {
+                            Some(o2) => format!("(Some {})", cord(*o2)),
+                            None => "None".to_string(),
+                        },
+                        before,
+                        after,
+                        ok
+                    ),
+                    None,
+                ),
+                (Point::LockTry { cell, kind }, Outcome::Acquired) => (format!("ELock {} {} {} true", me, cell, clk(kind)), Some(None)),
+                (Point::LockTry { cell, kind }, Outcome::Blocked) => (format!("ELock {} {} {} false", me, cell, clk(kind)), Some(Some(*cell))),
+                (Point::LockRelease { cell, kind }, _) => {
+                    let mut g = self.s.st.lock().unwrap();
+                    for b in g.blocked_on.iter_mut() {
+                        if *b == Some(*cell) {
+                            *b = None;
+                        }
+                    }
+                    drop(g);
+                    (format!("EUnlock {} {} {}", me, cell, clk(kind)), None)
+                }
+                _ => (format!("EOther {}", me), None),
+            };
+            self.emit(line, b);
+        }
+    }
+
+    #[derive(Clone)]
+    enum Obj {
+        CtrF(Counter),
+        CtrU(IntCounter),
+        GaugeF(Gauge),
+        GaugeI(IntGauge),
+        Hist(Histogram),
+        Vec(IntCounterVec, usize),
+    }
+    #[derive(Clone)]
+    enum Op {
+        Inc,
+        IncByF(f64),
+        IncByU(u64),
+        Get,
+        Reset,
+        LFlushF(Vec<f64>),
+        LFlushU(Vec<u64>),
+        SetF(f64),
+        SetI(i64),
+        Dec,
+        AddF(f64),
+        AddI(i64),
+        SubF(f64),
+        SubI(i64),
+        Obs(f64),
+        Batch(Vec<f64>),
+        Collect,
+        SCount,
+        SSum,
+        WithInc(Vec<String>, u64),
+        Remove(Vec<String>),
+        VReset,
+        VCollect,
+    }
+    fn parse_op(s: &str) -> Op {
+        let mut t = Tok::new(s);
+        match t.word() {
+            "inc" => Op::Inc,
+            "incbyf" => Op::IncByF(t.f64()),
+            "incbyu" => Op::IncByU(t.u64()),
+            "get" => Op::Get,
+            "reset" => Op::Reset,
+            "lflushf" => Op::LFlushF(t.list(|t| t.f64())),
+            "lflushu" => Op::LFlushU(t.list(|t| t.u64())),
+            "setf" => Op::SetF(t.f64()),
+            "seti" => Op::SetI(t.i64()),
+            "dec" => Op::Dec,
+            "addf" => Op::AddF(t.f64()),
+            "addi" => Op::AddI(t.i64()),
+            "subf" => Op::SubF(t.f64()),
+            "subi" => Op::SubI(t.i64()),
+            "obs" => Op::Obs(t.f64()),
+            "batch" => Op::Batch(t.list(|t| t.f64())),
+            "collect" => Op::Collect,
+            "scount" => Op::SCount,
+            "ssum" => Op::SSum,
+            "withinc" => {
+                let k = t.strings();
+                Op::WithInc(k, t.u64())
+            }
+            "remove" => Op::Remove(t.strings()),
+            "vreset" => Op::VReset,
+            "vcollect" => Op::VCollect,
+            w => panic!("bad conc op {}", w),
+        }
+    }
+    fn cstrs(v: &[String]) -> String {
+        crate::fmt::clist(v, |s| crate::fmt::cstr(s))
+    }
+    fn cn_list<T: std::fmt::Display>(v: &[T]) -> String {
+        let l: Vec<String> = v.iter().map(|x| x.to_string()).collect();
+        format!("[{}]", l.join(";"))
+    }
+
+    /// runs one call; `call`/`ret` markers are scheduled steps of their own
+    fn run_op(h: &WorkerHook, obj: &Obj, op: &Op) {
+        let me = h.me;
+        match (obj, op) {
+            (Obj::CtrF(c), Op::Inc) => {
+                h.marker(format!("ECall {} CInc", me));
+                c.inc();
+                h.marker(format!("ERet {} RUnit", me));
+            }
+            (Obj::CtrU(c), Op::Inc) => {
+                h.marker(format!("ECall {} CInc", me));
+                c.inc();
+                h.marker(format!("ERet {} RUnit", me));
+            }
+            (Obj::GaugeF(c), Op::Inc) => {
+                h.marker(format!("ECall {} CInc", me));
+                c.inc();
+                h.marker(format!("ERet {} RUnit", me));
+            }
+            (Obj::GaugeI(c), Op::Inc) => {
+                h.marker(format!("ECall {} CInc", me));
+                c.inc();
+                h.marker(format!("ERet {} RUnit", me));
+            }
+            (Obj::CtrF(c), Op::IncByF(v)) => {
+                h.marker(format!("ECall {} (CAdd {})", me, v.to_bits()));
+                c.inc_by(*v);
+                h.marker(format!("ERet {} RUnit", me));
+            }
+            (Obj::CtrU(c), Op::IncByU(v)) => {
+                h.marker(format!("ECall {} (CAdd {})", me, v));
+                c.inc_by(*v);
+                h.marker(format!("ERet {} RUnit", me));
+            }
+            (Obj::CtrF(c), Op::Get) => {
+                h.marker(format!("ECall {} CGet", me));
+                let v = c.get();
+                h.marker(format!("ERet {} (RVal {})", me, v.to_bits()));
+            }
+            (Obj::CtrU(c), Op::Get) => {
+                h.marker(format!("ECall {} CGet", me));
+                let v = c.get();
+                h.marker(format!("ERet {} (RVal {})", me, v));
+            }
+            (Obj::GaugeF(c), Op::Get) => {
+                h.marker(format!("ECall {} CGet", me));
+                let v = c.get();
+                h.marker(format!("ERet {} (RVal {})", me, v.to_bits()));
+            }
+            (Obj::GaugeI(c), Op::Get) => {
+                h.marker(format!("ECall {} CGet", me));
+                let v = c.get();
+                h.marker(format!("ERet {} (RVal {})", me, v as u64));
+            }
+            (Obj::CtrF(c), Op::Reset) => {
+                h.marker(format!("ECall {} CReset", me));
+                c.reset();
+                h.marker(format!("ERet {} RUnit", me));
+            }
+            (Obj::CtrU(c), Op::Reset) => {
+                h.marker(format!("ECall {} CReset", me));
+                c.reset();
+                h.marker(format!("ERet {} RUnit", me));
+            }
+            (Obj::CtrF(c), Op::LFlushF(vs)) => {
+                let l = c.local();
+                for v in vs {
+                    l.inc_by(*v);
+                }
+                let acc = l.get();
+                h.marker(format!("ECall {} (CFlush {})", me, acc.to_bits()));
+                l.flush();
+                h.marker(format!("ERet {} RUnit", me));
+                // a second flush must be a no-op: it performs no shared step at all
+                l.flush();
+            }
+            (Obj::CtrU(c), Op::LFlushU(vs)) => {
+                let l = c.local();
+                for v in vs {
+                    l.inc_by(*v);
+                }
+                let acc = l.get();
+                h.marker(format!("ECall {} (CFlush {})", me, acc));
+                l.flush();
+                h.marker(format!("ERet {} RUnit", me));
+                l.flush();
+            }
+            (Obj::GaugeF(c), Op::SetF(v)) => {
+                h.marker(format!("ECall {} (CSet {})", me, v.to_bits()));
+                c.set(*v);
+                h.marker(format!("ERet {} RUnit", me));
+            }
+            (Obj::GaugeI(c), Op::SetI(v)) => {
+                h.marker(format!("ECall {} (CSet {})", me, *v as u64));
+                c.set(*v);
+                h.marker(format!("ERet {} RUnit", me));
+            }
+            (Obj::GaugeF(c), Op::Dec) => {
+                h.marker(format!("ECall {} CDec", me));
+                c.dec();
+                h.marker(format!("ERet {} RUnit", me));
+            }
+            (Obj::GaugeI(c), Op::Dec) => {
+                h.marker(format!("ECall {} CDec", me));
+                c.dec();
+                h.marker(format!("ERet {} RUnit", me));
+            }
+            (Obj::GaugeF(c), Op::AddF(v)) => {
+                h.marker(format!("ECall {} (CAdd {})", me, v.to_bits()));
+                c.add(*v);
+                h.marker(format!("ERet {} RUnit", me));
+            }
+            (Obj::GaugeI(c), Op::AddI(v)) => {
+                h.marker(format!("ECall {} (CAdd {})", me, *v as u64));
+                c.add(*v);
+                h.marker(format!("ERet {} RUnit", me));
+            }
+            (Obj::GaugeF(c), Op::SubF(v)) => {
+                h.marker(format!("ECall {} (CSub {})", me, v.to_bits()));
+                c.sub(*v);
+                h.marker(format!("ERet {} RUnit", me));
+            }
+            (Obj::GaugeI(c), Op::SubI(v)) => {
+                h.marker(format!("ECall {} (CSub {})", me, *v as u64));
+                c.sub(*v);
+                h.marker(format!("ERet {} RUnit", me));
+            }
+            (Obj::Hist(hh), Op::Obs(v)) => {
+                h.marker(format!("ECall {} (CObs {})", me, v.to_bits()));
+                hh.observe(*v);
+                h.marker(format!("ERet {} RUnit", me));
+            }
+            (Obj::Hist(hh), Op::Batch(vs)) => {
+                let l = hh.local();
+                for v in vs {
+                    l.observe(*v);
+                }
+                let bits: Vec<u64> = vs.iter().map(|v| v.to_bits()).collect();
+                h.marker(format!("ECall {} (CBatch {})", me, cn_list(&bits)));
+                l.flush();
+                h.marker(format!("ERet {} RUnit", me));
+                // dropping the (now empty) local histogram performs no shared step
+                drop(l);
+            }
+            (Obj::Hist(hh), Op::Collect) => {
+                h.marker(format!("ECall {} CCollect", me));
+                let m = hh.metric();
+                let p = m.get_histogram();
+                let bks: Vec<u64> = p.get_bucket().iter().map(|b| b.cumulative_count()).collect();
+                h.marker(format!(
+                    "ERet {} (RSnap {} {} {})",
+                    me,
+                    p.get_sample_count(),
+                    p.get_sample_sum().to_bits(),
+                    cn_list(&bks)
+                ));
+            }
+            (Obj::Hist(hh), Op::SCount) => {
+                h.marker(format!("ECall {} CSCount", me));
+                let v = hh.get_sample_count();
+                h.marker(format!("ERet {} (RVal {})", me, v));
+            }
+            (Obj::Hist(hh), Op::SSum) => {
+                h.marker(format!("ECall {} CSSum", me));
+                let v = hh.get_sample_sum();
+                h.marker(format!("ERet {} (RVal {})", me, v.to_bits()));
+            }
+            (Obj::Vec(v, _), Op::WithInc(k, d)) => {
+                h.marker(format!("ECall {} (CWithInc {} {})", me, cstrs(k), d));
+                let ks: Vec<&str> = k.iter().map(|s| s.as_str()).collect();
+                match v.get_metric_with_label_values(&ks) {
+                    Ok(c) => {
+                        c.inc_by(*d);
+                        h.marker(format!("ERet {} RUnit", me));
+                    }
+                    Err(_) => h.marker(format!("ERet {} RErr", me)),
+                }
+            }
+            (Obj::Vec(v, _), Op::Remove(k)) => {
+                h.marker(format!("ECall {} (CRemove {})", me, cstrs(k)));
+                let ks: Vec<&str> = k.iter().map(|s| s.as_str()).collect();
+                match v.remove_label_values(&ks) {
+                    Ok(()) => h.marker(format!("ERet {} RUnit", me)),
+                    Err(_) => h.marker(format!("ERet {} RErr", me)),
+                }
+            }
+            (Obj::Vec(v, _), Op::VReset) => {
+                h.marker(format!("ECall {} CVReset", me));
+                v.reset();
+                h.marker(format!("ERet {} RUnit", me));
+            }
+            (Obj::Vec(v, _), Op::VCollect) => {
+                h.marker(format!("ECall {} CVCollect", me));
+                let mfs = v.collect();
+                let mut items: Vec<String> = vec![];
+                for m in mfs[0].get_metric() {
+                    let vals: Vec<String> = m.get_label().iter().map(|lp| lp.value().to_string()).collect();
+                    items.push(format!("({},{})", cstrs(&vals), m.get_counter().value() as u64));
+                }
+                h.marker(format!("ERet {} (RColl [{}])", me, items.join(";")));
+            }
+            _ => {
+                h.marker(format!("ECall {} CBadOp", me));
+                h.marker(format!("ERet {} RErr", me));
+            }
+        }
+    }
+
+    pub fn run_line(line: &str) -> String {
+        let parts: Vec<&str> = line.split('|').map(|s| s.trim()).collect();
+        let mut t = Tok::new(parts[0]);
+        let _ = t.word();
+        verif_sync::reset_ids();
+        let obj = match t.word() {
+            "ctr" => match t.word() {
+                "NF" => Obj::CtrF(Counter::new("c", "h").unwrap()),
+                _ => Obj::CtrU(IntCounter::new("c", "h").unwrap()),
+            },
+            "gauge" => match t.word() {
+                "NF" => Obj::GaugeF(Gauge::new("g", "h").unwrap()),
+                _ => Obj::GaugeI(IntGauge::new("g", "h").unwrap()),
+            },
+            "hist" => {
+                let b = t.list(|t| t.f64());
+                Obj::Hist(Histogram::with_opts(HistogramOpts::new("h", "h").buckets(b)).unwrap())
+            }
+            "vec" => {
+                let n = t.usize();
+                let names: Vec<String> = (0..n).map(|i| format!("l{}", i)).collect();
+                let ns: Vec<&str> = names.iter().map(|s| s.as_str()).collect();
+                Obj::Vec(IntCounterVec::new(Opts::new("v", "h"), &ns).unwrap(), n)
+            }
+            w => panic!("bad object {}", w),
+        };
+        let mut progs: Vec<Vec<Op>> = vec![];
+        let mut schedule: Vec<(usize, bool)> = vec![];
+        for p in &parts[1..] {
+            if let Some(rest) = p.strip_prefix("S") {
+                for w in rest.split_whitespace() {
+                    let (d, sp) = match w.strip_suffix('s') {
+                        Some(d) => (d, true),
+                        None => (w, false),
+                    };
+                    schedule.push((d.parse().unwrap(), sp));
+                }
+            } else {
+                progs.push(p.split(',').map(|s| s.trim()).filter(|s| !s.is_empty()).map(parse_op).collect());
+            }
+        }
+        let n = progs.len();
+        let s = Arc::new(Sched {
+            st: Mutex::new(State {
+                turn: None,
+                waiting: vec![false; n],
+                done: vec![false; n],
+                blocked_on: vec![None; n],
+                log: vec![],
+                abort: false,
+            }),
+            cv: Condvar::new(),
+        });
+        let mut hs = vec![];
+        for (i, prog) in progs.into_iter().enumerate() {
+            let obj = obj.clone();
+            let s2 = s.clone();
+            hs.push(std::thread::spawn(move || {
+                let hook = Arc::new(WorkerHook { s: s2.clone(), me: i });
+                verif_sync::install(hook.clone());
+                let r = catch_unwind(AssertUnwindSafe(|| {
+                    for op in &prog {
+                        run_op(&hook, &obj, op);
+                    }
+                }));
+                verif_sync::uninstall();
+                let mut g = s2.st.lock().unwrap();
+                if let Err(e) = r {
+                    if !e.is::<Aborted>() {
+                        g.log.push(format!("EPanic {}", i));
+                    }
+                }
+                g.done[i] = true;
+                g.waiting[i] = false;
+                g.turn = None;
+                s2.cv.notify_all();
+            }));
+        }
+        let mut sched_iter = schedule.into_iter();
+        let mut rr = 0usize;
+        let mut steps = 0usize;
+        let max_steps = 4000usize;
+        let deadline = Instant::now() + Duration::from_secs(20);
+        let mut verdict: Option<&str> = None;
+        loop {
+            let mut g = s.st.lock().unwrap();
+            // wait until every live thread is parked
+            while !(0..n).all(|i| g.waiting[i] || g.done[i]) {
+                let (g2, to) = s.cv.wait_timeout(g, Duration::from_millis(200)).unwrap();
+                g = g2;
+                if to.timed_out() && Instant::now() > deadline {
+                    verdict = Some("EStuck"); // a thread neither parks nor finishes: it spins outside the shim
+                    break;
+                }
+            }
+            if verdict.is_some() {
+                g.abort = true;
+                s.cv.notify_all();
+                break;
+            }
+            if g.done.iter().all(|d| *d) {
+                break;
+            }
+            let enabled = |g: &State, i: usize| g.waiting[i] && !g.done[i] && g.blocked_on[i].is_none();
+            if !(0..n).any(|i| enabled(&g, i)) {
+                verdict = Some("EDeadlock");
+                g.abort = true;
+                s.cv.notify_all();
+                break;
+            }
+            steps += 1;
+            if steps > max_steps {
+                verdict = Some("ELivelock");
+                g.abort = true;
+                s.cv.notify_all();
+                break;
+            }
+            let want = sched_iter.next();
+            let (t, sp) = match want {
+                Some((t, sp)) if t < n && enabled(&g, t) => (t, sp),
+                _ => {
+                    // fair fallback: round robin over the enabled threads
+                    let mut k = rr;
+                    loop {
+                        k = (k + 1) % n;
+                        if enabled(&g, k) {
+                            break;
+                        }
+                    }
+                    rr = k;
+                    (k, false)
+                }
+            };
+            g.turn = Some((t, sp));
+            s.cv.notify_all();
+            while g.turn.is_some() {
+                g = s.cv.wait(g).unwrap();
+            }
+        }
+        if verdict.is_none() {
+            for h in hs {
+                let _ = h.join();
+            }
+        } else {
+            // give aborted threads a moment to unwind; blocked ones are leaked
+            std::thread::sleep(Duration::from_millis(50));
+        }
+        let g = s.st.lock().unwrap();
+        let mut evs: Vec<String> = g.log.clone();
+        if let Some(v) = verdict {
+            evs.push(v.to_string());
+        }
+        format!("[{}]", evs.join("; "))
+    }
 }
